@@ -244,4 +244,257 @@ theorem modes_buildDictD_eq (vf : Bool) : ∀ (flat : List Val) (acc : List (Val
   | a :: b :: rest, acc => by
     simp only [buildDictD, buildDict, modes_buildDictD_eq vf rest]
 
+/-! ### a flat description of the union loader -/
+
+/-- the first case outcome that is not a LoadError (what DISABLE/FIRST return or propagate) -/
+def firstNonErr : List (Outcome Val) → Option (Outcome Val)
+  | [] => none
+  | o :: rest =>
+    match o with
+    | .err _ => firstNonErr rest
+    | o => some o
+
+/-- the LoadErrors of the cases before the first case that is not a LoadError -/
+def prefixErrs : List (Outcome Val) → List LErr
+  | [] => []
+  | o :: rest =>
+    match o with
+    | .err e => e :: prefixErrs rest
+    | _ => []
+
+theorem modes_unionFirstOk_eq (os : List (Outcome Val)) (errs : List LErr) :
+    unionFirstOk os errs =
+      (match firstNonErr os with
+       | some o => o
+       | none => .err LErr.bare, errs ++ prefixErrs os) := by
+  induction os generalizing errs with
+  | nil => simp [unionFirstOk, firstNonErr, prefixErrs]
+  | cons o rest ih => cases o <;> simp [unionFirstOk, firstNonErr, prefixErrs, ih]
+
+theorem modes_firstNonErr_not_err {os : List (Outcome Val)} {o : Outcome Val}
+    (h : firstNonErr os = some o) : ∀ e, o ≠ .err e := by
+  induction os with
+  | nil => simp [firstNonErr] at h
+  | cons o' rest ih =>
+    cases o' <;> simp [firstNonErr] at h <;> first | exact ih h | (subst h; intro e; simp)
+
+/-- `_is_single_optional`: the non-None case of a two-case union with None -/
+def singleOptional? : List Ty → Option Ty
+  | [a, b] => if isNoneTy a || isNoneTy b then some (if isNoneTy a then b else a) else none
+  | _ => none
+
+/-- FIRST/ALL wrap the inner LoadError of `Optional[T]`; DISABLE does not -/
+def wrapOptional (t : DebugTrail) (d : Val) (o : Outcome Val) : Outcome Val :=
+  match t, o with
+  | .disable, o => o
+  | _, .err e => .err (LErr.union [LErr.leaf "TypeLoadError" d, e])
+  | _, o => o
+
+/-- the general union loader on the outcomes of the cases -/
+def generalUnion (t : DebugTrail) (os : List (Outcome Val)) : Outcome Val :=
+  match t with
+  | .disable => (firstNonErr os).getD (.err LErr.bare)
+  | .first =>
+    (match firstNonErr os with
+     | some o => o
+     | none => .err (LErr.union (prefixErrs os)))
+  | .all => unionAll os [] false
+
+theorem modes_general_eq (cfg : Cfg) (cases : List Ty) (ld : Ty → Val → Outcome Val) (d : Val) :
+    loadUnion.general cfg cases ld d = generalUnion cfg.trail (cases.map fun c => ld c d) := by
+  unfold loadUnion.general generalUnion
+  simp only [modes_unionFirstOk_eq]
+  cases cfg.trail with
+  | disable =>
+    simp only
+    cases h : firstNonErr (cases.map fun c => ld c d) with
+    | none => simp
+    | some o =>
+      have hne := modes_firstNonErr_not_err h
+      cases o with
+      | err e => exact absurd rfl (hne e)
+      | _ => simp
+  | first =>
+    simp only
+    cases h : firstNonErr (cases.map fun c => ld c d) with
+    | none => simp
+    | some o =>
+      have hne := modes_firstNonErr_not_err h
+      cases o with
+      | err e => exact absurd rfl (hne e)
+      | _ => simp
+  | all => rfl
+
+theorem modes_loadUnion_eq (cfg : Cfg) (cases : List Ty) (ld : Ty → Val → Outcome Val) (d : Val) :
+    loadUnion cfg cases ld d =
+      match singleOptional? cases with
+      | some other => if d.isNone then .ok .none else wrapOptional cfg.trail d (ld other d)
+      | none => generalUnion cfg.trail (cases.map fun c => ld c d) := by
+  unfold loadUnion
+  split
+  · rename_i a b
+    by_cases h : (isNoneTy a || isNoneTy b) = true
+    · simp only [singleOptional?, h, if_true]
+      split
+      · rfl
+      · unfold wrapOptional; rfl
+    · simp only [singleOptional?, h, modes_general_eq]; rfl
+  · rename_i h
+    have : singleOptional? cases = none := by
+      unfold singleOptional?
+      split
+      · exact absurd rfl (h _ _)
+      · rfl
+    simp only [this, modes_general_eq]
+
+/-! ### one unfolding step of `load` / `dump` per type constructor -/
+
+section unfold
+variable (W : World) (DW : DumpWorld) (cfg : Cfg) (n : Nat) (d : Val)
+
+theorem modes_load_zero (T : Ty) : load W cfg 0 T d = .diverge := rfl
+theorem modes_load_scalar (s : String) : load W cfg (n + 1) (.scalar s) d = W.scalarLoad cfg.strict s d := rfl
+theorem modes_load_any : load W cfg (n + 1) .any d = .ok d := rfl
+theorem modes_load_literal (vals : List Val) :
+    load W cfg (n + 1) (.literal vals) d = loadLiteral cfg.strict vals d := rfl
+theorem modes_load_union (cases : List Ty) (keys : List String) :
+    load W cfg (n + 1) (.union cases keys) d = loadUnion cfg cases (fun c x => load W cfg n c x) d := rfl
+theorem modes_load_iter (f : Factory) (dl : Bool) (e : Ty) :
+    load W cfg (n + 1) (.iter f dl e) d = loadIter cfg f (load W cfg n e) d := rfl
+theorem modes_load_tuple (elems : List Ty) :
+    load W cfg (n + 1) (.tuple elems) d = loadTuple cfg (elems.map fun t => load W cfg n t) d := rfl
+theorem modes_load_dict (k v : Ty) :
+    load W cfg (n + 1) (.dict k v) d = loadDict cfg (load W cfg n k) (load W cfg n v) d := rfl
+theorem modes_load_model (cls : String) :
+    load W cfg (n + 1) (.model cls) d =
+      match W.classes cls with
+      | none => .escape "NoSuchClass"
+      | some fields => loadModel cfg cls fields (fun f x => load W cfg n f.ty x) d := rfl
+
+theorem modes_dump_zero (T : Ty) : dump W DW cfg 0 T d = .diverge := rfl
+theorem modes_dump_scalar (s : String) : dump W DW cfg (n + 1) (.scalar s) d = W.scalarDump s d := rfl
+theorem modes_dump_any : dump W DW cfg (n + 1) .any d = .ok d := rfl
+theorem modes_dump_literal (vals : List Val) : dump W DW cfg (n + 1) (.literal vals) d = .ok d := rfl
+theorem modes_dump_union (cases : List Ty) (keys : List String) :
+    dump W DW cfg (n + 1) (.union cases keys) d =
+      dumpUnion DW cases keys (fun c y => dump W DW cfg n c y) d := rfl
+theorem modes_dump_iter (f : Factory) (dl : Bool) (e : Ty) :
+    dump W DW cfg (n + 1) (.iter f dl e) d = dumpIter cfg dl (dump W DW cfg n e) d := rfl
+theorem modes_dump_tuple (elems : List Ty) :
+    dump W DW cfg (n + 1) (.tuple elems) d = dumpTuple cfg (elems.map fun t => dump W DW cfg n t) d := rfl
+theorem modes_dump_dict (k v : Ty) :
+    dump W DW cfg (n + 1) (.dict k v) d = dumpDict cfg (dump W DW cfg n k) (dump W DW cfg n v) d := rfl
+theorem modes_dump_model (cls : String) :
+    dump W DW cfg (n + 1) (.model cls) d =
+      match W.classes cls with
+      | none => .escape "NoSuchClass"
+      | some fields => dumpModel cfg fields (fun f y => dump W DW cfg n f.ty y) d := rfl
+
+end unfold
+
+/-! ### dump-side structure -/
+
+/-- the union dumper either answers by itself or hands the value to exactly one case dumper,
+    chosen independently of the case dumpers -/
+theorem modes_dumpUnion_shape (DW : DumpWorld) (cases : List Ty) (keys : List String) (x : Val) :
+    (∃ o, ∀ dm, dumpUnion DW cases keys dm x = o) ∨
+    (∃ t, ∀ dm, dumpUnion DW cases keys dm x = dm t x) := by
+  have hbc : (∃ o, ∀ dm, dumpUnion.byClass DW cases keys dm x = o) ∨
+      (∃ t, ∀ dm, dumpUnion.byClass DW cases keys dm x = dm t x) := by
+    unfold dumpUnion.byClass
+    cases dispatchCase DW (dispatchTable keys cases []) x with
+    | none => exact Or.inl ⟨_, fun _ => rfl⟩
+    | some t => exact Or.inr ⟨t, fun _ => rfl⟩
+  have hg : (∃ o, ∀ dm, dumpUnion.general DW cases keys dm x = o) ∨
+      (∃ t, ∀ dm, dumpUnion.general DW cases keys dm x = dm t x) := by
+    unfold dumpUnion.general
+    cases literalVals cases with
+    | none => exact hbc
+    | some vs =>
+      simp only
+      split
+      · exact Or.inl ⟨_, fun _ => rfl⟩
+      · exact hbc
+  unfold dumpUnion
+  split
+  · rename_i a b
+    by_cases h : (isNoneTyD a || isNoneTyD b) = true
+    · simp only [h, if_true]
+      by_cases hx : x.isNone = true
+      · simp only [hx, if_true]; exact Or.inl ⟨_, fun _ => rfl⟩
+      · simp only [hx]; exact Or.inr ⟨_, fun _ => rfl⟩
+    · simp only [h]; exact hg
+  · exact hg
+
+/-- the per-field items of the model dumper -/
+def dumpModelItems (fields : List Field) (fd : Field → Val → Outcome Val) (fs : List (String × Val)) :
+    List (Option TrailEl × Outcome Val) :=
+  fields.map fun f =>
+    (some (TrailEl.attr f.name),
+      match getField f.name fs with
+      | some v => fd f v
+      | none => Outcome.escape "AttributeError")
+
+theorem modes_itemsRel_dumpModel {R : Outcome Val → Outcome Val → Prop}
+    (hesc : ∀ e, R (.escape e) (.escape e)) (fields : List Field) (fd fd' : Field → Val → Outcome Val)
+    (fs : List (String × Val)) (h : ∀ f ∈ fields, ∀ v, R (fd f v) (fd' f v)) :
+    ItemsRel R (dumpModelItems fields fd fs) (dumpModelItems fields fd' fs) := by
+  induction fields with
+  | nil => exact All₂.nil
+  | cons f rest ih =>
+    refine All₂.cons ⟨rfl, ?_⟩ (ih fun g hg => h g (by simp [hg]))
+    simp only
+    cases getField f.name fs with
+    | none => exact hesc _
+    | some v => exact h f (by simp) v
+
+theorem modes_dumpModel_eq (cfg : Cfg) (fields : List Field) (fd : Field → Val → Outcome Val) (x : Val) :
+    dumpModel cfg fields fd x =
+      match x with
+      | .obj _ fs =>
+        bindO (seqModeDump cfg.trail (dumpModelItems fields fd fs))
+          (fun vals => .ok (.dict ((fields.map fun f => Val.str f.name).zip vals)))
+      | _ => .escape "AttributeError" := by
+  cases x <;> rfl
+
+theorem modes_loadDict_eq (cfg : Cfg) (k v : Val → Outcome Val) (d : Val) :
+    loadDict cfg k v d =
+      match d with
+      | .dict kvs =>
+        bindO (seqMode cfg.trail (dictItems (cfg.trail == .disable) k v kvs))
+          (fun flat => buildDict (cfg.trail == .disable) flat [])
+      | _ => .err (LErr.leaf "TypeLoadError" d) := by
+  cases d <;> rfl
+
+theorem modes_dumpDict_eq (cfg : Cfg) (k v : Val → Outcome Val) (x : Val) :
+    dumpDict cfg k v x =
+      match x with
+      | .dict kvs =>
+        bindO (seqModeDump cfg.trail (dictItems (cfg.trail == .disable) k v kvs))
+          (fun flat => buildDict (cfg.trail == .disable) flat [])
+      | _ => .escape "AttributeError" := by
+  cases x <;> try rfl
+  simp only [dumpDict, modes_dictItemsD_eq, modes_buildDictD_eq]
+
+theorem modes_dumpTuple_eq (cfg : Cfg) (dumpers : List (Val → Outcome Val)) (x : Val) :
+    dumpTuple cfg dumpers x =
+      match lenOf x with
+      | none => .err (LErr.leaf "TypeLoadError" x)
+      | some xs =>
+        if xs.length > dumpers.length then .err (LErr.leaf "ExtraItemsLoadError" x)
+        else if xs.length < dumpers.length then .err (LErr.leaf "NoRequiredItemsLoadError" x)
+        else bindO (seqModeDump cfg.trail (idxItems (zipApply dumpers xs))) (fun ys => .ok (.tuple ys)) := by
+  unfold dumpTuple
+  cases lenOf x with
+  | none => rfl
+  | some xs => simp only [modes_zipApplyD_eq, modes_idxItemsD_eq]
+
+theorem modes_dumpIter_eq (cfg : Cfg) (asList : Bool) (elem : Val → Outcome Val) (x : Val) :
+    dumpIter cfg asList elem x =
+      match x.iterElems with
+      | none => .escape "TypeError"
+      | some xs =>
+        bindO (seqModeDump cfg.trail (idxItems (xs.map elem)))
+          (fun ys => .ok (if asList then .list ys else .tuple ys)) := rfl
+
 end Adaptix.Morph
